@@ -47,6 +47,7 @@ async fn persist_world(run: &mut Run, macro_step: u64, script: u64) -> StdResult
         "tx_step": run.sim.cfg.tx_step, "blocks_step": run.sim.cfg.blocks_step,
         "macro_step": macro_step, "script": script,
         "types": run.sim.cfg.types.iter().map(|d| d.to_string()).collect::<Vec<_>>(),
+        "acknowledged_signatures": run.signed_once.as_ref().map(|s| s.iter().map(|(i, k)| json!([i, k])).collect::<Vec<_>>()).unwrap_or_default(),
         "genesis_epochs": run.model.genesis_epochs,
     });
     let tmp = world_file(&run.sim.cfg.data_dir).with_extension("tmp");
@@ -105,6 +106,8 @@ pub async fn macro_step_kind(run: &mut Run, n: u64, script: u64, kind: u64, mon:
         for d in [SignedEntityTypeDiscriminants::CardanoDatabase, SignedEntityTypeDiscriminants::CardanoTransactions] {
             run.apply(&Ev::Sign { disc: d, who: all.clone(), mode: SignMode::Valid, authenticated: true }, mon).await?;
         }
+        // stops only happen inside ticks: what was acknowledged is on record before the next one
+        persist_world(run, n, script).await?;
     }
     for round in 0..10 {
         run.apply(&Ev::Tick, mon).await?;
@@ -119,6 +122,7 @@ pub async fn macro_step_kind(run: &mut Run, n: u64, script: u64, kind: u64, mon:
             // crash points are then reached for the round every epoch depends on)
             if (n + script) % 2 == 1 && run.open_discriminants().is_empty() {
                 run.apply(&Ev::Sign { disc: SignedEntityTypeDiscriminants::MithrilStakeDistribution, who: all.clone(), mode: SignMode::Valid, authenticated: true }, mon).await?;
+                persist_world(run, n, script).await?;
             }
         }
         let snap = sim::snapshot(&run.sim.db_path())?;
@@ -130,6 +134,7 @@ pub async fn macro_step_kind(run: &mut Run, n: u64, script: u64, kind: u64, mon:
         for d in open {
             run.apply(&Ev::Sign { disc: d, who: all.clone(), mode: SignMode::Valid, authenticated: true }, mon).await?;
         }
+        persist_world(run, n, script).await?;
     }
     // let the background artifact task finish
     tokio::time::sleep(std::time::Duration::from_millis(20)).await;
@@ -183,6 +188,7 @@ pub async fn check_invariants(run: &mut Run, mon: &mut Monitor, hid: &str, when:
 pub async fn run_fresh(dir: PathBuf, script: u64, steps: u64, mon: &mut Monitor) -> StdResult<()> {
     let mut rng = mon.rng("c15-script", script);
     let mut run = Run::start_with_types(dir, &mut rng, types_of_script(script)).await?;
+    run.signed_once = Some(Default::default());
     let all: Vec<usize> = (0..run.n_signers()).collect();
     let hid = format!("script{script}");
     mon.count(&format!("base:signed entity types enabled on top of MithrilStakeDistribution: {:?}", run.sim.cfg.types.iter().map(|d| d.to_string()).collect::<Vec<_>>()));
@@ -222,6 +228,13 @@ pub async fn run_resume(dir: PathBuf, mon: &mut Monitor, label: &str, progress_s
         chain_point: ChainPoint { slot_number: SlotNumber(slot), block_number: BlockNumber(block), block_hash: format!("block_hash-{block}") },
     };
     let mut run = Run::resume(cfg, tp, w["n_signers"].as_u64().unwrap() as usize, pp, w["genesis_epochs"].as_array().map(|a| a.iter().filter_map(|x| x.as_u64()).collect()).unwrap_or_default()).await?;
+    // what the signers know they delivered (acknowledged before the stop): never sent again
+    run.signed_once = Some(
+        w["acknowledged_signatures"]
+            .as_array()
+            .map(|a| a.iter().filter_map(|e| Some((e[0].as_u64()? as usize, e[1].as_str()?.to_string()))).collect())
+            .unwrap_or_default(),
+    );
     // blocks the node has but the store has not: serve them again
     let txdb = dir.join("stores").join("cardano-transaction.sqlite3");
     let stored_max = sim::read_table(&txdb, "select coalesce(max(block_number), 0) as m from cardano_block").ok().and_then(|r| r.first().and_then(|m| m["m"].as_i64())).unwrap_or(0) as u64;
